@@ -9,6 +9,9 @@
 (***************************************************************************)
 EXTENDS Integers, Sequences, TLC, CacheFormat
 
+\* the integer rule proved for all sizes with TLAPS (spec/CacheLayout.tla, spec/proofs/CacheLayoutProofs.tla)
+L == INSTANCE CacheLayout
+
 CONSTANTS MaxClasses, MaxMembers, MaxStrings
 
 LE(n) == <<n % 256, (n \div 256) % 256, (n \div 65536) % 256, n \div 16777216>>
@@ -60,6 +63,12 @@ O == ParseOutcome(buf)
 Full == FileOf(shape.nc, shape.nm, shape.nb, shape.ns)
 Implied(nc, nm, nb, ns) == Len(FileOf(nc, nm, nb, ns))
 
+SmallAtOk(off) == Len(buf) >= 24 /\ SmallAt(buf, off) >= 0 /\ SmallAt(buf, off) < 100000
+LayoutAgrees ==
+  (Len(buf) >= 24 /\ Slice(buf, 1, 5) = Magic /\ SmallAt(buf, 4) = Version
+     /\ SmallAtOk(8) /\ SmallAtOk(12) /\ SmallAtOk(16) /\ SmallAtOk(20))
+    => O.ok = L!Accepts(Len(buf), SmallAt(buf, 8), SmallAt(buf, 12), SmallAt(buf, 16), SmallAt(buf, 20))
+
 Inv ==
   /\ phase = "full" => O.ok /\ ImpliedLength(buf) = Len(buf)
   /\ phase = "cut" => ~O.ok                                   \* torn files are never half-read
@@ -71,4 +80,7 @@ Inv ==
   \* more declared entries than the buffer holds: rejected with a section error
   /\ (what \in {"classes+", "members+"} /\ ~O.ok) => O.err \in {"InvalidClasses", "InvalidMembers", "UnexpectedStringBytes"}
   /\ (what \in {"classes+", "members+"} /\ O.ok) => ImpliedLength(buf) <= Len(buf)
+  \* the byte-level rule and the integer rule agree wherever the header is readable and the counts are small
+  /\ LayoutAgrees
+
 =============================================================================
